@@ -128,6 +128,12 @@ def plan(tier, seed):
         (corner("real", prefix=A.LL, qubits=2, name="real-two-locals"), A.two_locals(), 3),
         # channel declaration order matters to the per-atom merge: DMM configured before the channels
         (corner("unit8", prefix=A.DG, qubits=3, name="unit8-dmm-first"), A.render(l="r", dmm="dmm_0", eom=False), 3),
+        # Ising mode with an SLM mask (a DMM channel created by the sequence); two detuning maps on the same DMM id
+        (corner("real", prefix=[("declare", "g", "rydberg_global"), ("declare", "r", "rydberg_local", "q0"), ("slm", ["q0", "q2"])],
+                qubits=3, name="ising-slm-mask"), A.render(l="r", eom=False), 3),
+        (corner("unit8", prefix=[("config_dmm", "m2", "dmm_0"), ("config_dmm", "m1", "dmm_0"), ("declare", "g", "rydberg_global")],
+                qubits=3, name="two-maps-on-one-dmm-id"),
+         A.render(l=None, dmm="dmm_0", eom=False) + [("add_dmm", ["C", 40, -0.75], "dmm_0_1", "no-delay")], 3),
         (corner("mixed", prefix=A.GLD, qubits=3, qid_alias={"q0": 2, "q1": 0, "q2": 1}, name="mixed-dmm-int-ids-out-of-order"),
          A.render(dmm="dmm_0", eom=False), 3),
         (corner("unit8", prefix=A.GR, qubits=3, qid_alias={"q0": "z", "q1": "a", "q2": "m"}, name="unit8-str-ids-out-of-order"),
